@@ -51,6 +51,32 @@ CLAIMED["C05"] = {
     "technique": "contract-based deductive verification: contracts on the batching helpers + block-optimality by ghost instantiation of the solver contract; z3 (LIA lemma, NRA), purification to LRA, cvc5",
 }
 
+SOLVER_NOTE = A_COMMON + " cvxpy solver contract as in C04 (an installed solver returns an exact global minimiser of the problem the code builds; numerical accuracy of the solvers is not decided; DCP/DQCP verdicts are the real cvxpy's on a concrete shadow instance)."
+CLAIMED["C07"] = {
+    "text": "The real lsq_linear(model='poisson') and lsq_linear_excitation are executed symbolically against the solver contract: in-bound intensities, pred == T(X); the code's objective equals the weighted Poisson negative log-likelihood sum_j W_j (T(x)_j - B_j log T(x)_j) (log uninterpreted, congruence on the normal form of its argument, so a missing baseline or misplaced weight inside the log fails) resp. max_j |B_j - T_j|/((1+B_j)(1+T_j)) which a separate lemma proves equal to |e(B_j) - e(T_j)|; every returned row is a global minimiser over the box (ghost instantiation); an in-gamut target is reproduced by all three models (Poisson via the Gibbs inequality instance of the log axioms); estimator.fit dispatches the model names.",
+    "design_ref": "DESIGN.md section 6 C07",
+    "note": SOLVER_NOTE + " log is uninterpreted with the axiom instances of A4 (Gibbs form). Excitation contract is taken at W = 1 (the property states the objective without weights). A > 0, B >= 0 (> 0 for Poisson), K, baseline > 0; (nf,ns) in {(2,2),(2,3)} quick, up to (3,3) thorough.",
+    "technique": "contract-based deductive verification: formulation identity + optimality transfer through a solver contract, lemma cuts, exact polynomial / congruence normal form, z3 NRA, cvc5",
+}
+CLAIMED["C08"] = {
+    "text": "The real lsq_linear_underdetermined / _get_underdetermined_objective against the solver contract, for an in-gamut target given by a ghost witness: the stated feasible set is exactly box and ||W(T(x)-B)|| <= l2_eps (both implications), the returned row satisfies it, and no point of that set has a better secondary objective for each option 'l2', 'min', 'max', 'var', number, vector (Skolem competitor instantiated into the minimiser fact); pred == T(X); fit_underdetermined passes the registered state and rejects systems that are not underdetermined.",
+    "design_ref": "DESIGN.md section 6 C08",
+    "note": SOLVER_NOTE + " l2_eps is a symbolic positive real (covers 1e-6..1e-3); (nf,ns) = (2,3) quick, up to (3,5) thorough; batch_size 1 (asserted by the code).",
+    "technique": "contract-based deductive verification: feasible-set and objective formulation + optimality transfer by ghost instantiation of the solver contract",
+}
+CLAIMED["C09"] = {
+    "text": "The real lsq_linear_minimize: (stage 2, explicit norm) feasible set == box, ||W(T(x)-B)|| <= l2_eps+norm_r [, |sum x - L1| <= l1_eps], objective == sum_jk Eps'_jk x_k^2 with Eps' = propagate_error(Epsilon, K) or the squared transformed A, every row minimal among the points meeting the conditions, B_var == X^2 Eps'^T; (two-stage, norm=None) with lsq_linear replaced by its C04 contract the ordinary fit is feasible for stage 2, the call never fails, and variance(X) <= variance(ordinary fit); propagate_error entry-wise for scalar/vector/matrix K; register_system's default Epsilon ('heteroscedastic', explicit, integral of sigma^2 s^2, variance over sampled filters) and minimize_variance's argument passing.",
+    "design_ref": "DESIGN.md section 6 C09",
+    "note": SOLVER_NOTE + " sqrt (the attainable error norm) is uninterpreted with s >= 0, s^2 = t; calculate_capture and lsq_linear enter through their contracts. (nf,ns) up to (2,3) quick, (3,4) thorough; m <= 3, batch sizes 1-2.",
+    "technique": "contract-based deductive verification: two-stage formulation with callee contracts as stubs, optimality transfer by ghost instantiation, lemma cuts over sqrt terms",
+}
+CLAIMED["C10"] = {
+    "text": "The real lsq_linear_adaptive against the solver contract: runs with default arguments; the stated feasible set is exactly the property's conditions (total capture == s0 * target total, offset from the neutral direction == s1 * target offset, within the deltas or exactly for delta 0, bounds, scales >= 0) in both directions; 'unity': no feasible pair is closer to (1,1) in the scale_w-weighted norm and scales == (1,1) when every target has an in-box pre-image; 'max': no feasible pair has a larger weighted sum; pred == T(X); fit_adaptive passes state and options.",
+    "design_ref": "DESIGN.md section 6 C10",
+    "note": SOLVER_NOTE + " cvxpy Variable(pos=True) is modelled as >= 0, so 'positive scales' is proved as non-negative. Sizes (2,2,m=1), (2,3,m=2) quick; up to (4,5) thorough; deltas symbolic positive or 0.",
+    "technique": "contract-based deductive verification: constraint/objective formulation in both directions + optimality transfer by ghost instantiation of the solver contract",
+}
+
 NOT_APPLICABLE = {}
 
-FIX_COMMITS = ["b2d156a (np.trapz -> trapezoid)", "1caec1a (negative fit targets no longer declared positive cvxpy parameters)", "f3b37fa (batched_iteration bs > n)", "b98cd56 (poisson baseline tiling)", "d30d941 (minimize .copy())", "35d91a0 (minimize reshape order)", "b90b02d (minimize padded slack)", "7019c2d (excitation baseline)", "3901923 (excitation per-sample)"]
+FIX_COMMITS = ["b2d156a (np.trapz -> trapezoid)", "1caec1a (negative fit targets no longer declared positive cvxpy parameters)", "f3b37fa (batched_iteration bs > n)", "b98cd56 (poisson baseline tiling)", "d30d941 (minimize .copy())", "35d91a0 (minimize reshape order)", "b90b02d (minimize padded slack)", "7019c2d (excitation baseline)", "3901923 (excitation per-sample)", "b370f4e (adaptive default solver)"]
